@@ -264,6 +264,7 @@ class RandQ:
         if d > 0:
             opts += [
                 lambda: self._bin(scope, d - 1),
+                lambda: self._valbool(scope, d - 1),
                 lambda: self._cond(scope, d - 1),
                 lambda: self._count(scope, d - 1),
                 lambda: self._fieldof(scope, d - 1),
@@ -275,6 +276,14 @@ class RandQ:
     def _bin(self, scope, d):
         a, b = self.intx(scope, d), self.intx(scope, d)
         return None if a is None or b is None else f"({a} {self.rng.choice(['+', '-', '*'])} {b})"
+
+    def _valbool(self, scope, d):
+        """and / or in VALUE position on non-boolean operands (Python returns an operand)"""
+        a, b = self.intx(scope, d), self.intx(scope, d)
+        if a is None or b is None:
+            return None
+        return self.rng.choice([f"({a} and {b})", f"({a} or {b})", f"({a} and True)", f"({a} or 0)",
+                                f"(True and {a})"])
 
     def _cond(self, scope, d):
         a, b, c = self.intx(scope, d), self.boolx(scope, d), self.intx(scope, d)
